@@ -15,9 +15,9 @@ DIRECTIVES = ['.org', '.memzone', '.align']
 DATATYPES = ['.fill', '.zero', '.zerountil', '.byte', '.2byte', '.4byte', '.8byte', '.cstr', '.asciiz']
 PREPROC = ['include', 'require', 'create_memzone', 'define', 'if', 'elif', 'else', 'endif', 'ifdef', 'ifndef', 'mute', 'unmute', 'emit']
 MN_POOL = ['ld', 'lda', 'ld.w', 'ld.b', 'st', 'sta', 'mov', 'mov16', 'a', 'x', 'jmp', 'j', 'add.c', 'adc', 'push2', 'p', 'inc', 'in',
-           'sub_w', 'br.eq', 'br', 'q7']
-REG_POOL = ['a', 'b', 'x', 'sp', 'hl', 'ix', 'r0', 'r1', 'r10', 'mar', 'acc']
-MACRO_POOL = ['push2x', 'mov2', 'ld2', 'm.dot', 'jsr2', 'st']
+           'sub_w', 'br.eq', 'br', 'q7', '_brk', 'ld_', '_t_']
+REG_POOL = ['a', 'b', 'x', 'sp', 'hl', 'ix', 'r0', 'r1', 'r10', 'mar', 'acc', 'sp_', '_fp']
+MACRO_POOL = ['push2x', 'mov2', 'ld2', 'm.dot', 'jsr2', 'st', '_push2', 'call_']
 
 
 def vocab_isa(rng, with_macros, with_regs, with_pre):
@@ -77,7 +77,7 @@ class C20(core.Check):
     crosscheck_every = {'quick': 0, 'thorough': 0}       # the CLI cross-check compares files, the inspector ran in the worker
     required_buckets = {b: 3 for b in ['target:vscode', 'target:sublime', 'vocab:macros', 'vocab:no-macros', 'vocab:registers',
                                        'vocab:no-registers', 'vocab:predefined', 'vocab:no-predefined', 'mnemonic:contains-dot',
-                                       'mnemonic:prefix-of-another', 'mnemonic:single-letter']}
+                                       'mnemonic:prefix-of-another', 'mnemonic:single-letter', 'vocab:underscore-at-edge']}
 
     def __init__(self):
         self.words = 0
@@ -99,6 +99,8 @@ class C20(core.Check):
                 tags.add('mnemonic:prefix-of-another')
             if any(len(m) == 1 for m in mns):
                 tags.add('mnemonic:single-letter')
+            if any(w.startswith('_') or w.endswith('_') for w in mns + macros + regs):
+                tags.add('vocab:underscore-at-edge')
             for tgt in ('vscode', 'sublime'):
                 argv = ['generate-extension', tgt, '-c', fn, '-d', 'out']
                 if rng.random() < 0.3:
